@@ -14,6 +14,8 @@ K_INVS = ["InvFrac", "InvShift", "InvSym", "InvGaussDiag", "InvGaussRange", "Inv
           "InvPatFull", "InvPatMin", "InvPatUnique", "InvPatOneSided", "InvPatKPlus", "InvViews"]
 K_TRACE_CONST = dict(MaxN=0, Coords="{}", Dim=0, NMeth=0)
 
+B_MODEL = {"quick": dict(Fields='{"a", "b", "c"}', Values="{1, 2}", MaxLen=4),
+           "thorough": dict(Fields='{"a", "b", "c"}', Values="{1, 2, 3}", MaxLen=5)}
 H_MODEL = {"quick": dict(MaxN=3, Vals="{0, 1, 2, 20}"), "thorough": dict(MaxN=4, Vals="{0, 1, 2}")}
 H_MODEL2 = dict(MaxN=3, Vals="{0, 1, 2, 3, 5, 20}")      # thorough: second run, more levels and floored entries
 H_GEN = {"quick": dict(MaxN=4, Stride=6), "thorough": dict(MaxN=5, Stride=1)}
@@ -52,7 +54,7 @@ def random_kernel_cases(ctx, count):
         rhs = [[r.randint(-2, 2), r.randint(-2, 2)] for _ in range(n)]
         pd = r.choice([1, 1, 2])
         off = r.randint(0, 3) if meth["name"] == "gauss" else 0     # shifted records: shift-invariant kernel only
-        out.append({"kind": "kernel", "inp": {"pts": pts, "meth": meth, "k": k, "rhs": rhs, "pd": pd, "off": off}})
+        out.append({"kind": "kernel", "inp": {"pts": pts, "meth": meth, "k": k, "rhs": rhs, "pd": pd, "off": off, "hnn": "kd", "hists": []}})
     return out
 
 
@@ -83,7 +85,7 @@ def random_hier_cases(ctx, count):
                     dk[i][j] = dk[j][i] = r.choice(vals)
             hs = sorted(r.sample(range(0, 42), 4))
             out.append({"kind": "hier", "inp": {"src": "expmat", "dk": dk, "qd": 4, "pts": [], "pd": 1, "off": 0, "meth": none, "link": link,
-                                                 "f32": r.random() < 0.25, "crits": hier_crits(n, hs, 4)}})
+                                                 "f32": r.random() < 0.25, "crits": hier_crits(n, hs, 4), "hists": []}})
         else:
             n = r.randint(5, 8)
             link = r.choice(EXACT_LINKS)
@@ -99,7 +101,7 @@ def random_hier_cases(ctx, count):
             hs = [h for h in hs if not (135 * 101 * en < 10 * (101 * h + 37) < 141 * 101 * en)]
             out.append({"kind": "hier", "inp": {"src": "pts", "dk": [], "qd": 1, "pts": pts, "pd": 1, "off": r.randint(0, 3),
                                                  "meth": {"name": "gauss", "en": en, "ed": ed, "c": 0, "d": 0, "dd": 1}, "link": link,
-                                                 "f32": r.random() < 0.25, "crits": hier_crits(n, hs, en)}})
+                                                 "f32": r.random() < 0.25, "crits": hier_crits(n, hs, en), "hists": []}})
     return out
 
 
@@ -121,6 +123,8 @@ def run(ctx):
     binp = vlib.cargo_build("c06")
     vlib.mc_elem(ctx)
     # (A) design models
+    vlib.tlc_mc(ctx, "C06Builder", {"constants": B_MODEL[ctx.tier], "invariants": ["InvFold", "InvLastWins", "InvOrderFree", "InvOthers"]},
+                workers=4)
     vlib.tlc_mc(ctx, "KernelMat", {"constants": K_MODEL[ctx.tier], "invariants": K_INVS})
     vlib.tlc_mc(ctx, "HierClust", {"constants": H_MODEL[ctx.tier], "invariants": H_INVS},
                 coverage_actions=["Merge", "Stop"] if ctx.quick else None)
